@@ -12,14 +12,23 @@
     `off z t`      the UTC offset in force at `t`: the offset of the type of transition
                    `trIdx z t`, of type 0 before the first transition — the uncached spec;
     `CacheOK z c`  the cache is fresh or holds a range on which `off z` is constant;
-    `NoTrBetween`, `Far`, `OffsLe`   windows free of transitions (item 4).
+    `CacheRng z c` the cache is fresh or holds a range a look-up reported (what the C code stores; implies
+                   `CacheOK`) — `zif_utc_time` looks at the neighbours of the cached range and needs this one;
+    `NoTrBetween`, `Far`, `OffsLe`   windows free of transitions (item 4);
+    `Room w`       `w` is at least a day (the largest offset) away from both ends of int32;
+    `utcVal z w`   what `zif_utc_time` answers for the local time `w` (Echse/Lemmas/Tz5.lean);
+    `guessIdx z w` the stretch of the first guess `w − off (w − off w)`; `Near z w u`: `u` lies in that stretch
+                   or in one next to it (the three stretches `zif_utc_time` tries);
+    `Spaced z`     consecutive transitions are farther apart than any two offsets differ (decidable).
 
-  1 search, 2 range, 3 cache, 4 local ↔ UTC, 5 instants.
+  1 search, 2 range, 3 cache, 4 local ↔ UTC, 4b repeated and skipped local times, 5 instants.
   Statements only; helper lemmas live in Echse/Lemmas/Tz*.lean.
 -/
 import Echse.Lemmas.Tz
 import Echse.Lemmas.Tz2
 import Echse.Lemmas.Tz3
+import Echse.Lemmas.Tz6
+import Echse.Lemmas.Tz8
 namespace C07
 open Echse.Tz Echse.Instant Echse.Spec.Cal
 
@@ -156,6 +165,18 @@ theorem cache_sequence (z : Zone) (wf : WF z) (c : ZRng) (hc : CacheOK z c) (ts 
     ∃ c', offsSeq z c ts = some (ts.map (off z), c') ∧ CacheOK z c' :=
   offsSeq_spec z wf ts c hc h
 
+/-- the stronger invariant the real cache satisfies: fresh, or a range `__find_zrng` reported (nothing else is
+ever stored).  `zif_utc_time` looks at the neighbours of the cached range, so it needs this one. -/
+theorem cacheRng_fresh (z : Zone) : CacheRng z ZRng.fresh := Or.inl rfl
+
+theorem cacheOK_of_cacheRng (z : Zone) (wf : WF z) (c : ZRng) (h : CacheRng z c) : CacheOK z c :=
+  cacheOK_of_rng z wf c h
+
+/-- through such a cache the look-up leaves exactly the range of `t`, whatever was cached before -/
+theorem cache_transparent_rng (z : Zone) (wf : WF z) (c : ZRng) (hc : CacheRng z c) (t : Int) (ht : I32 t) :
+    offsC z c t = some (off z t, rngAt z (trIdx z t)) ∧ CacheRng z (rngAt z (trIdx z t)) :=
+  ⟨offsC_rng z wf c hc t ht, cacheRng_rngAt z t ht⟩
+
 /-! ### 4. local ↔ UTC -/
 
 /-- `zif_local_time` adds the offset in force -/
@@ -163,56 +184,154 @@ theorem local_time (z : Zone) (wf : WF z) (c : ZRng) (hc : CacheOK z c) (u : Int
     ∃ c', localTime z c u = some (u + off z u, c') ∧ CacheOK z c' :=
   localTime_spec z wf c hc u hu
 
-/-- what the two-step fixed point `zif_utc_time` computes for a wall-clock value `w`:
-`x1 := off w` (the wall clock read as UTC), `x2 := off (w − x1)`, result `w − x2`
-(the shortcut for `x1 = 0` gives the same value). -/
-theorem utc_time_value (z : Zone) (wf : WF z) (c : ZRng) (hc : CacheOK z c) (w : Int) (hw : I32 w)
+theorem local_time_rng (z : Zone) (wf : WF z) (c : ZRng) (hc : CacheRng z c) (u : Int) (hu : I32 u) :
+    ∃ c', localTime z c u = some (u + off z u, c') ∧ CacheRng z c' :=
+  ⟨_, localTime_rng z wf c hc u hu, cacheRng_rngAt z u hu⟩
+
+/-- what `zif_utc_time` computes for a wall-clock value `w`: `utcVal z w` — the first guess `w − off (w − off w)`
+selects a stretch (`guessIdx z w`); of it and its two neighbours (`candsAt`) the smallest valid answer is
+taken, else the offset from before the gap (`pick`).  The cache is left on the stretch of the guess. -/
+theorem utc_time_value (z : Zone) (wf : WF z) (c : ZRng) (hc : CacheRng z c) (w : Int) (hw : I32 w)
     (hw' : I32 (w - off z w)) :
-    ∃ c', utcTime z c w = some (w - off z (w - off z w), c') ∧ CacheOK z c' :=
-  utcTime_eq z wf c hc w hw hw'
+    utcTime z c w = some (utcVal z w, rngAt z (guessIdx z w)) ∧ CacheRng z (rngAt z (guessIdx z w)) :=
+  ⟨utcTime_eq' z wf c hc w hw hw', cacheRng_rngAt z _ hw'⟩
 
-/-- For the wall clock `w = u + off u` of a UTC time `u` the result is `u` EXACTLY WHEN the
-second look-up finds the offset in force at `u` (the first-guess condition). -/
-theorem utc_of_local_iff (z : Zone) (wf : WF z) (c : ZRng) (hc : CacheOK z c) (u : Int)
-    (hw : I32 (u + off z u)) (hw' : I32 (u + off z u - off z (u + off z u))) :
-    ∃ r c', utcTime z c (u + off z u) = some (r, c') ∧ CacheOK z c' ∧
-      (r = u ↔ off z (u + off z u - off z (u + off z u)) = off z u) := by
-  obtain ⟨c', e, h⟩ := utcTime_eq z wf c hc (u + off z u) hw hw'
-  exact ⟨_, c', e, h, utcTime_hit_iff z u⟩
+/-- neither the answer nor the cache left behind depends on the cache handed in -/
+theorem utc_cache_independent (z : Zone) (wf : WF z) (c c' : ZRng) (hc : CacheRng z c) (hc' : CacheRng z c')
+    (w : Int) (hw : I32 w) (hw' : I32 (w - off z w)) : utcTime z c w = utcTime z c' w := by
+  rw [utcTime_eq' z wf c hc w hw hw', utcTime_eq' z wf c' hc' w hw hw']
 
-theorem utc_of_local (z : Zone) (wf : WF z) (c : ZRng) (hc : CacheOK z c) (u : Int)
-    (hw : I32 (u + off z u)) (hw' : I32 (u + off z u - off z (u + off z u)))
-    (hfg : off z (u + off z u - off z (u + off z u)) = off z u) :
-    ∃ c', utcTime z c (u + off z u) = some (u, c') ∧ CacheOK z c' := by
-  obtain ⟨c', e, h⟩ := utcTime_eq z wf c hc (u + off z u) hw hw'
-  refine ⟨c', ?_, h⟩
-  rw [e, (utcTime_hit_iff z u).2 hfg]
+/-- the answer is `w` less the offset of some stretch: within a day of `w` -/
+theorem utc_time_bound (z : Zone) (wf : WF z) (w : Int) : w - 86400 ≤ utcVal z w ∧ utcVal z w ≤ w + 86400 :=
+  utcVal_bound z wf w
 
-/-- the first-guess condition holds when no transition lies between `w − x1` and `u` … -/
+/-- For the wall clock `w = u + off u` of a UTC time `u` in the stretch of the guess or next to it (`Near`) the
+result is `u` EXACTLY WHEN `u` is the first of the UTC times there that show `w`.  `Room`: one day to spare at
+both ends of int32. -/
+theorem utc_of_local_iff (z : Zone) (wf : WF z) (c : ZRng) (hc : CacheRng z c) (u : Int)
+    (hr : Room (u + off z u)) (hn : Near z (u + off z u) u) :
+    ∃ r c', utcTime z c (u + off z u) = some (r, c') ∧ CacheRng z c' ∧
+      (r = u ↔ ∀ u', u' + off z u' = u + off z u → Near z (u + off z u) u' → u ≤ u') := by
+  obtain ⟨h1, h2⟩ := room_I32 z wf _ hr
+  exact ⟨_, _, utcTime_eq' z wf c hc _ h1 h2, cacheRng_rngAt z _ h2, utcVal_eq_iff z wf u hr hn⟩
+
+theorem utc_of_local (z : Zone) (wf : WF z) (c : ZRng) (hc : CacheRng z c) (u : Int)
+    (hr : Room (u + off z u)) (hn : Near z (u + off z u) u)
+    (hfst : ∀ u', u' + off z u' = u + off z u → Near z (u + off z u) u' → u ≤ u') :
+    ∃ c', utcTime z c (u + off z u) = some (u, c') ∧ CacheRng z c' := by
+  obtain ⟨h1, h2⟩ := room_I32 z wf _ hr
+  refine ⟨_, ?_, cacheRng_rngAt z _ h2⟩
+  rw [utcTime_eq' z wf c hc _ h1 h2, (utcVal_eq_iff z wf u hr hn).2 hfst]
+
+/-- an unambiguous wall clock (`u` its only preimage) is converted back to `u` -/
+theorem utc_of_local_unambiguous (z : Zone) (wf : WF z) (c : ZRng) (hc : CacheRng z c) (u : Int)
+    (hr : Room (u + off z u)) (hn : Near z (u + off z u) u)
+    (huniq : ∀ u', u' + off z u' = u + off z u → u' = u) :
+    ∃ c', utcTime z c (u + off z u) = some (u, c') ∧ CacheRng z c' :=
+  utc_of_local z wf c hc u hr hn (fun u' h _ => by rw [huniq u' h]; exact Int.le_refl _)
+
+/-- the old first-guess condition … -/
 theorem firstGuess_of_window (z : Zone) (u : Int)
     (h : NoTrBetween z (u + off z u - off z (u + off z u)) u) :
     off z (u + off z u - off z (u + off z u)) = off z u :=
   off_eq_of_noTr z _ _ h
 
+/-- … and `Near` hold when no transition lies between the guess and `u` … -/
+theorem near_of_window (z : Zone) (u : Int)
+    (h : NoTrBetween z (u + off z u - off z (u + off z u)) u) : Near z (u + off z u) u :=
+  near_of_noTr z u h
+
 /-- … in particular when `u` is at least `2·M` away from every transition, `M` bounding the
 magnitude of the offsets (`M = 86400` always does for a `WF` table); the wall clock is then
 unambiguous as well. -/
 theorem firstGuess_of_far (z : Zone) (M u : Int) (hM : OffsLe z M) (hf : Far z M u) :
-    off z (u + off z u - off z (u + off z u)) = off z u ∧
+    off z (u + off z u - off z (u + off z u)) = off z u ∧ Near z (u + off z u) u ∧
     (∀ u', u' + off z u' = u + off z u → u' = u) :=
-  ⟨far_firstGuess z M u hM hf, far_unambiguous z M u hM hf⟩
+  ⟨far_firstGuess z M u hM hf, near_of_far z M u hM hf, far_unambiguous z M u hM hf⟩
 
 theorem offsLe_wf (z : Zone) (wf : WF z) : OffsLe z 86400 := offsLe_of_wf z wf
 
-/-- round trip `utcTime (localTime u) = u` under the first-guess condition, the cache
-threaded through -/
-theorem utc_local_roundtrip (z : Zone) (wf : WF z) (c : ZRng) (hc : CacheOK z c) (u : Int) (hu : I32 u)
-    (hw : I32 (u + off z u)) (hw' : I32 (u + off z u - off z (u + off z u)))
-    (hfg : off z (u + off z u - off z (u + off z u)) = off z u) :
-    ∃ w c1 c2, localTime z c u = some (w, c1) ∧ utcTime z c1 w = some (u, c2) ∧ CacheOK z c2 := by
-  obtain ⟨c1, e1, h1⟩ := localTime_spec z wf c hc u hu
-  obtain ⟨c2, e2, h2⟩ := utc_of_local z wf c1 h1 u hw hw' hfg
+/-- far from every transition the wall clock is converted back -/
+theorem utc_of_local_far (z : Zone) (wf : WF z) (c : ZRng) (hc : CacheRng z c) (u : Int)
+    (hr : Room (u + off z u)) (hf : Far z 86400 u) :
+    ∃ c', utcTime z c (u + off z u) = some (u, c') ∧ CacheRng z c' :=
+  utc_of_local_unambiguous z wf c hc u hr (near_of_far z _ u (offsLe_of_wf z wf) hf)
+    (far_unambiguous z _ u (offsLe_of_wf z wf) hf)
+
+/-- round trip `utcTime (localTime u) = u` when `u` is the first UTC time (next to the guess) showing its
+wall clock, the cache threaded through -/
+theorem utc_local_roundtrip (z : Zone) (wf : WF z) (c : ZRng) (hc : CacheRng z c) (u : Int) (hu : I32 u)
+    (hr : Room (u + off z u)) (hn : Near z (u + off z u) u)
+    (hfst : ∀ u', u' + off z u' = u + off z u → Near z (u + off z u) u' → u ≤ u') :
+    ∃ w c1 c2, localTime z c u = some (w, c1) ∧ utcTime z c1 w = some (u, c2) ∧ CacheRng z c2 := by
+  obtain ⟨c1, e1, h1⟩ := local_time_rng z wf c hc u hu
+  obtain ⟨c2, e2, h2⟩ := utc_of_local z wf c1 h1 u hr hn hfst
   exact ⟨_, c1, c2, e1, e2, h2⟩
+
+/-! ### 4b. local times the zone has twice, local times the clocks skipped
+
+`Near z w u`: `u` lies in the stretch the first guess selects (`guessIdx z w`) or in one next to it — the three
+stretches `zif_utc_time` looks at.  `Spaced z` (decidable for a concrete table): consecutive transitions are
+farther apart than any two offsets of the table differ; then every preimage is `Near` and a local time in a
+gap has a guess at that gap. -/
+
+/-- (a) a local time `w` with at least one preimage `u` (a UTC time showing `w`) next to the guess: the answer is
+the SMALLEST such preimage — the first occurrence of a repeated local time -/
+theorem utc_of_local_first (z : Zone) (wf : WF z) (c : ZRng) (hc : CacheRng z c) (w : Int) (hr : Room w)
+    (u : Int) (hu : u + off z u = w) (hn : Near z w u) :
+    ∃ m c', utcTime z c w = some (m, c') ∧ CacheRng z c' ∧ m + off z m = w ∧ Near z w m ∧ m ≤ u ∧
+      ∀ u', u' + off z u' = w → Near z w u' → m ≤ u' := by
+  obtain ⟨h1, h2⟩ := room_I32 z wf w hr
+  obtain ⟨a, b, m⟩ := utcVal_first z wf w hr u hu hn
+  exact ⟨_, _, utcTime_eq' z wf c hc w h1 h2, cacheRng_rngAt z _ h2, a, b, m u hu hn, m⟩
+
+/-- … in a `Spaced` zone: the smallest of ALL preimages -/
+theorem utc_of_local_first_spaced (z : Zone) (wf : WF z) (sp : Spaced z) (c : ZRng) (hc : CacheRng z c)
+    (w : Int) (hr : Room w) (u : Int) (hu : u + off z u = w) :
+    ∃ m c', utcTime z c w = some (m, c') ∧ CacheRng z c' ∧ m + off z m = w ∧
+      ∀ u', u' + off z u' = w → m ≤ u' := by
+  obtain ⟨m, c', e, h, a, _, _, mn⟩ := utc_of_local_first z wf c hc w hr u hu (spaced_near z wf sp w u hu)
+  exact ⟨m, c', e, h, a, fun u' hu' => mn u' hu' (spaced_near z wf sp w u' hu')⟩
+
+/-- (b) a local time `w` in the gap of transition `k` (`trs[k] + offset before ≤ w < trs[k] + offset after`)
+without a preimage next to the guess, the guess in one of the two stretches at that transition: the answer is
+`w` less the offset from BEFORE the gap -/
+theorem utc_of_local_gap_near (z : Zone) (wf : WF z) (c : ZRng) (hc : CacheRng z c) (w : Int) (hr : Room w)
+    (k : Nat) (hk : k < z.ntr)
+    (hlo : tr z k + off z (tr z k - 1) ≤ w) (hhi : w < tr z k + off z (tr z k))
+    (hadj : guessIdx z w = (k : Int) - 1 ∨ guessIdx z w = k)
+    (hno : ∀ u, u + off z u = w → ¬ Near z w u) :
+    ∃ c', utcTime z c w = some (w - off z (tr z k - 1), c') ∧ CacheRng z c' := by
+  obtain ⟨h1, h2⟩ := room_I32 z wf w hr
+  rw [off_before z wf k hk] at hlo ⊢
+  rw [off_at_tr z wf k hk] at hhi
+  have e := utcVal_gap z wf w hr k (by omega) (by omega) (by rw [Int.toNat_natCast]; exact hlo)
+    (by rw [Int.toNat_natCast]; exact hhi) hadj hno
+  exact ⟨_, by rw [utcTime_eq' z wf c hc w h1 h2, e], cacheRng_rngAt z _ h2⟩
+
+/-- … in a `Spaced` zone a local time in the gap of transition `k` has no preimage at all, and the answer is
+`w` less the offset from before the gap (RFC 5545 3.3.5) -/
+theorem utc_of_local_gap (z : Zone) (wf : WF z) (sp : Spaced z) (c : ZRng) (hc : CacheRng z c)
+    (w : Int) (hr : Room w) (k : Nat) (hk : k < z.ntr)
+    (hlo : tr z k + off z (tr z k - 1) ≤ w) (hhi : w < tr z k + off z (tr z k)) :
+    (∀ u, u + off z u ≠ w) ∧
+    ∃ c', utcTime z c w = some (w - off z (tr z k - 1), c') ∧ CacheRng z c' := by
+  have hlo' := hlo
+  have hhi' := hhi
+  rw [off_before z wf k hk] at hlo'
+  rw [off_at_tr z wf k hk] at hhi'
+  obtain ⟨adj, no⟩ := spaced_gap z wf sp w k (by omega) (by omega) (by rw [Int.toNat_natCast]; exact hlo')
+    (by rw [Int.toNat_natCast]; exact hhi')
+  exact ⟨fun u hu => no u hu,
+    utc_of_local_gap_near z wf c hc w hr k hk hlo hhi adj (fun u hu _ => no u hu)⟩
+
+/-- a repeated local time: preimages `u1 < u2`; the answer is not `u2` -/
+theorem utc_of_local_not_second (z : Zone) (wf : WF z) (c : ZRng) (hc : CacheRng z c) (u1 u2 : Int)
+    (hr : Room (u2 + off z u2)) (h : u1 + off z u1 = u2 + off z u2) (hlt : u1 < u2)
+    (hn : Near z (u2 + off z u2) u1) :
+    ∃ m c', utcTime z c (u2 + off z u2) = some (m, c') ∧ m ≤ u1 ∧ m ≠ u2 := by
+  obtain ⟨m, c', e, _, _, _, le, _⟩ := utc_of_local_first z wf c hc _ hr u1 h hn
+  exact ⟨m, c', e, le, by omega⟩
 
 /-! ### 5. instants -/
 
@@ -236,46 +355,69 @@ theorem instant_loc (z : Zone) (wf : WF z) (c : ZRng) (hc : CacheOK z c) (i : In
   exact instantLoc_gen z wf c hc i h ⟨by omega, by omega⟩ (by rw [I32_iff]; omega)
     (by omega) (by omega)
 
-/-- `echs_instant_utc`: the instant `off z (w − off z w)` seconds earlier, `w = epoch i` -/
-theorem instant_utc (z : Zone) (wf : WF z) (c : ZRng) (hc : CacheOK z c) (i : Inst)
+theorem instant_loc_rng (z : Zone) (wf : WF z) (c : ZRng) (hc : CacheRng z c) (i : Inst)
     (h : NormalSec i) (hy1 : 1902 ≤ i.y) (hy2 : i.y ≤ 2037) :
-    ∃ j c', instantUtc z c i = some (j, c') ∧ CacheOK z c' ∧ NormalSec j ∧ InRange j ∧
-      absSec j = absSec i - off z (ep i - off z (ep i)) := by
+    ∃ j c', instantLoc z c i = some (j, c') ∧ CacheRng z c' ∧ NormalSec j ∧ InRange j ∧
+      absSec j = absSec i + off z (ep i) := by
   obtain ⟨e, l, u⟩ := ep_spec i h hy1 hy2
   have b := off_bound z wf (ep i)
-  have b' := off_bound z wf (ep i - off z (ep i))
+  have hd := days_1901
+  have hd' := days_2100
+  have he := epochDays_eq
+  exact instantLoc_rng z wf c hc i h ⟨by omega, by omega⟩ (by rw [I32_iff]; omega)
+    (by omega) (by omega)
+
+/-- `echs_instant_utc`: the instant `w − utcVal z w` seconds earlier, `w = epoch i` (`utcVal`: see
+`utc_time_value`, `utc_of_local_first`, `utc_of_local_gap`) -/
+theorem instant_utc (z : Zone) (wf : WF z) (c : ZRng) (hc : CacheRng z c) (i : Inst)
+    (h : NormalSec i) (hy1 : 1902 ≤ i.y) (hy2 : i.y ≤ 2037) :
+    ∃ j c', instantUtc z c i = some (j, c') ∧ CacheRng z c' ∧ NormalSec j ∧ InRange j ∧
+      absSec j = absSec i - (ep i - utcVal z (ep i)) := by
+  obtain ⟨e, l, u⟩ := ep_spec i h hy1 hy2
+  have b := off_bound z wf (ep i)
+  have b' := utcVal_bound z wf (ep i)
   have hd := days_1901
   have hd' := days_2100
   have he := epochDays_eq
   exact instantUtc_gen z wf c hc i h ⟨by omega, by omega⟩ (by rw [I32_iff]; omega)
     (by rw [I32_iff]; omega) (by omega) (by omega)
 
-/-- if `i` shows the wall clock of the UTC time `u` and the first-guess condition of item 4
-holds, `echs_instant_utc` returns the instant of `u` (whether `u` is before 1970 or not) -/
-theorem instant_utc_of_local (z : Zone) (wf : WF z) (c : ZRng) (hc : CacheOK z c) (i : Inst)
+/-- the years 1902..2037 leave room at both ends of int32 -/
+theorem room_ep (i : Inst) (h : NormalSec i) (hy1 : 1902 ≤ i.y) (hy2 : i.y ≤ 2037) : Room (ep i) := by
+  obtain ⟨_, l, u⟩ := ep_spec i h hy1 hy2
+  unfold Room intMin intMax; omega
+
+/-- if `i` shows the wall clock of the UTC time `u`, and `u` is the first such time in the stretch of the guess
+or next to it, `echs_instant_utc` returns the instant of `u` (whether `u` is before 1970 or not) -/
+theorem instant_utc_of_local (z : Zone) (wf : WF z) (c : ZRng) (hc : CacheRng z c) (i : Inst)
     (h : NormalSec i) (hy1 : 1902 ≤ i.y) (hy2 : i.y ≤ 2037) (u : Int) (hu : ep i = u + off z u)
-    (hfg : off z (u + off z u - off z (u + off z u)) = off z u) :
-    ∃ j c', instantUtc z c i = some (j, c') ∧ CacheOK z c' ∧ NormalSec j ∧ InRange j ∧
+    (hn : Near z (u + off z u) u)
+    (hfst : ∀ u', u' + off z u' = u + off z u → Near z (u + off z u) u' → u ≤ u') :
+    ∃ j c', instantUtc z c i = some (j, c') ∧ CacheRng z c' ∧ NormalSec j ∧ InRange j ∧
       absSec j = absSec i - off z u ∧ ep j = u := by
   obtain ⟨j, c', e, hc', n, r, a⟩ := instant_utc z wf c hc i h hy1 hy2
-  rw [hu, hfg] at a
-  refine ⟨j, c', e, hc', n, r, a, ?_⟩
   obtain ⟨e1, l, up⟩ := ep_spec i h hy1 hy2
+  have hr := room_ep i h hy1 hy2
+  rw [hu] at hr
+  rw [hu, (utcVal_eq_iff z wf u hr hn).2 hfst] at a
   have b := off_bound z wf u
+  refine ⟨j, c', e, hc', n, r, by omega, ?_⟩
   exact ep_of_absSec j n u (by omega) (by omega) (by omega)
 
-/-- round trip on instants: `echs_instant_utc (echs_instant_loc i) = i` under the first-guess
-condition at `u = epoch i` (the local time may lie before 1970) -/
-theorem instant_roundtrip (z : Zone) (wf : WF z) (c : ZRng) (hc : CacheOK z c) (i : Inst)
+/-- round trip on instants: `echs_instant_utc (echs_instant_loc i) = i` when `u = epoch i` is the first UTC time
+(next to the guess) that shows its wall clock (the local time may lie before 1970) -/
+theorem instant_roundtrip (z : Zone) (wf : WF z) (c : ZRng) (hc : CacheRng z c) (i : Inst)
     (h : NormalSec i) (hy1 : 1902 ≤ i.y) (hy2 : i.y ≤ 2037)
-    (hfg : off z (ep i + off z (ep i) - off z (ep i + off z (ep i))) = off z (ep i)) :
-    ∃ j c1 c2, instantLoc z c i = some (j, c1) ∧ instantUtc z c1 j = some (i, c2) ∧ CacheOK z c2 := by
+    (hn : Near z (ep i + off z (ep i)) (ep i))
+    (hfst : ∀ u', u' + off z u' = ep i + off z (ep i) → Near z (ep i + off z (ep i)) u' → ep i ≤ u') :
+    ∃ j c1 c2, instantLoc z c i = some (j, c1) ∧ instantUtc z c1 j = some (i, c2) ∧ CacheRng z c2 := by
   obtain ⟨e, l, u⟩ := ep_spec i h hy1 hy2
-  obtain ⟨j, c1, e1, h1, n, r, a⟩ := instant_loc z wf c hc i h hy1 hy2
+  obtain ⟨j, c1, e1, h1, n, r, a⟩ := instant_loc_rng z wf c hc i h hy1 hy2
   have b := off_bound z wf (ep i)
   have hj : ep j = ep i + off z (ep i) := ep_of_absSec j n _ (by omega) (by omega) (by omega)
+  have hr : Room (ep i + off z (ep i)) := by unfold Room intMin intMax; omega
+  have hv : utcVal z (ep j) = ep i := by rw [hj]; exact (utcVal_eq_iff z wf _ hr hn).2 hfst
   have b' := off_bound z wf (ep j)
-  have b'' := off_bound z wf (ep j - off z (ep j))
   have hd := days_1901
   have hd' := days_2100
   have he := epochDays_eq
@@ -283,7 +425,7 @@ theorem instant_roundtrip (z : Zone) (wf : WF z) (c : ZRng) (hc : CacheOK z c) (
     (by rw [I32_iff]; omega) (by omega) (by omega)
   have : j' = i := by
     apply absSec_inj _ _ n' h
-    rw [a', hj, hfg]; omega
+    rw [a']; omega
   rw [this] at e2
   exact ⟨j, c1, c2, e1, e2, h2⟩
 
@@ -312,18 +454,21 @@ example : (offsSeq zEx ZRng.fresh [999, 1000, 5, 19999, 20000, 1500]).map (·.1)
 -- ordinary instants: the round trip works
 example : localTime zEx ZRng.fresh 10000 = some (13600, { prev := 1000, next := 20000, offs := 3600, trno := 0 }) := by decide
 example : (utcTime zEx ZRng.fresh 13600).map (·.1) = some 10000 := by decide
--- fold: UTC 19000 and UTC 22600 both show wall clock 22600; the later one is returned
+-- fold: UTC 19000 and UTC 22600 both show wall clock 22600; the first one is returned (the first guess alone
+-- would say 22600: its offset is not the one in force at 19000)
 example : (localTime zEx ZRng.fresh 19000).map (·.1) = some 22600 := by decide
-example : (utcTime zEx ZRng.fresh 22600).map (·.1) = some 22600 := by decide
-example : off zEx (22600 - off zEx 22600) ≠ off zEx 19000 := by decide     -- the condition fails at u = 19000
+example : (localTime zEx ZRng.fresh 22600).map (·.1) = some 22600 := by decide
+example : (utcTime zEx ZRng.fresh 22600).map (·.1) = some 19000 := by decide
+example : off zEx (22600 - off zEx 22600) ≠ off zEx 19000 := by decide
 -- gap: wall clock 2000 does not exist (1000 jumps to 4600); it is read with the offset before the gap
 example : (utcTime zEx ZRng.fresh 2000).map (·.1) = some 2000 := by decide
--- an unambiguous wall clock for which two steps are not enough: UTC 40400 shows 44000,
--- the first guess (offset at 44000 = +2h) lands before the 40000 transition
+-- an unambiguous wall clock for which the first guess is not enough: UTC 40400 shows 44000, the first guess
+-- (offset at 44000 = +2h) lands before the 40000 transition; the neighbouring stretch gives the answer
 example : (localTime zEx ZRng.fresh 40400).map (·.1) = some 44000 := by decide
-example : (utcTime zEx ZRng.fresh 44000).map (·.1) = some 44000 := by decide
+example : (utcTime zEx ZRng.fresh 44000).map (·.1) = some 40400 := by decide
 example : off zEx (44000 - off zEx 44000) ≠ off zEx 40400 := by decide
-/-- … although 40400 is the only UTC time showing 44000: unambiguity alone does not suffice -/
+example : Near zEx 44000 40400 := by decide
+/-- 40400 is the only UTC time showing 44000 -/
 theorem example_unambiguous : ∀ u', u' + off zEx u' = 44000 → u' = 40400 := by
   intro u' h
   simp only [off, offAt, trIdx, zEx, List.countP_cons, List.countP_nil] at h
@@ -340,6 +485,57 @@ example : (instantLoc zBer ZRng.fresh ⟨2020,12,31,23,30,0,1023⟩).map (·.1) 
 example : (instantLoc zBer ZRng.fresh ⟨2020,7,1,255,0,0,0⟩).map (·.1) = some ⟨2020,7,1,255,0,0,0⟩ := by decide
 example : tzobOffs zBer ⟨2020,3,29,1,0,0,1023⟩ = some 7200 := by decide
 example : tzobOffs zBer ⟨2020,3,29,0,59,59,1023⟩ = some 3600 := by decide
+
+/-! ### witnesses: skipped and repeated local times east and west of Greenwich -/
+
+example : Spaced zBer := by decide
+example : ¬ Spaced zEx := by decide
+-- Berlin 2020-03-29: the local times 02:00..03:00 (1585447200..1585450800) were skipped; 02:30 is read with the
+-- offset from before the gap (+1h): 01:30Z
+example : utcVal zBer 1585449000 = 1585449000 - 3600 := by decide
+example : (utcTime zBer ZRng.fresh 1585449000).map (·.1) = some (1585449000 - 3600) := by decide
+-- Berlin 2020-10-25: the local times 02:00..03:00 (1603591200..1603594800) occurred twice; 02:30 is its first
+-- occurrence, 00:30Z (summer time, +2h), not 01:30Z
+example : utcVal zBer 1603593000 = 1603593000 - 7200 := by decide
+example : (localTime zBer ZRng.fresh 1603585800).map (·.1) = some 1603593000 := by decide
+example : (localTime zBer ZRng.fresh 1603589400).map (·.1) = some 1603593000 := by decide
+example : (utcTime zBer ZRng.fresh 1603593000).map (·.1) = some 1603585800 := by decide
+/-- … whatever the cache holds: for every admissible cache -/
+theorem berlin_gap (c : ZRng) (hc : CacheRng zBer c) :
+    (utcTime zBer c 1585449000).map (·.1) = some 1585445400 := by
+  rw [(utc_time_value zBer (by decide) c hc _ (by decide) (by decide)).1]; decide
+theorem berlin_overlap (c : ZRng) (hc : CacheRng zBer c) :
+    (utcTime zBer c 1603593000).map (·.1) = some 1603585800 := by
+  rw [(utc_time_value zBer (by decide) c hc _ (by decide) (by decide)).1]; decide
+-- … and concretely with the cache on the winter, the summer and the next winter stretch
+example : (utcTime zBer (rngAt zBer (-1)) 1603593000).map (·.1) = some 1603585800 := by decide
+example : (utcTime zBer (rngAt zBer 0) 1603593000).map (·.1) = some 1603585800 := by decide
+example : (utcTime zBer (rngAt zBer 1) 1603593000).map (·.1) = some 1603585800 := by decide
+example : (utcTime zBer (rngAt zBer (-1)) 1585449000).map (·.1) = some 1585445400 := by decide
+example : (utcTime zBer (rngAt zBer 0) 1585449000).map (·.1) = some 1585445400 := by decide
+example : (utcTime zBer (rngAt zBer 1) 1585449000).map (·.1) = some 1585445400 := by decide
+
+-- America/New_York 2020 (EST −5h, EDT −4h from 2020-03-08T07:00Z to 2020-11-01T06:00Z)
+def zNY : Zone := { trs := [1583650800, 1604210400], tys := [1, 0], offs := [-18000, -14400] }
+example : WF zNY := by decide
+example : Spaced zNY := by decide
+-- 2020-03-08 02:30 local (1583634600) was skipped: the offset from before the gap (−5h): 07:30Z
+example : (utcTime zNY ZRng.fresh 1583634600).map (·.1) = some (1583634600 + 18000) := by decide
+-- 2020-11-01 01:30 local (1604194200) occurred twice: the first occurrence, 05:30Z (EDT, −4h), not 06:30Z
+example : (localTime zNY ZRng.fresh 1604208600).map (·.1) = some 1604194200 := by decide
+example : (localTime zNY ZRng.fresh 1604212200).map (·.1) = some 1604194200 := by decide
+example : (utcTime zNY ZRng.fresh 1604194200).map (·.1) = some (1604194200 + 14400) := by decide
+theorem newYork_gap (c : ZRng) (hc : CacheRng zNY c) :
+    (utcTime zNY c 1583634600).map (·.1) = some 1583652600 := by
+  rw [(utc_time_value zNY (by decide) c hc _ (by decide) (by decide)).1]; decide
+theorem newYork_overlap (c : ZRng) (hc : CacheRng zNY c) :
+    (utcTime zNY c 1604194200).map (·.1) = some 1604208600 := by
+  rw [(utc_time_value zNY (by decide) c hc _ (by decide) (by decide)).1]; decide
+-- the general theorems apply: the gap of transition 0, the first of two preimages
+example : ∀ u, u + off zNY u ≠ 1583634600 :=
+  (utc_of_local_gap zNY (by decide) (by decide) ZRng.fresh (cacheRng_fresh _) 1583634600 (by decide) 0
+    (by decide) (by decide) (by decide)).1
+
 
 -- instants before 1970 (negative epoch times): one transition at -1000000000 = 1938-04-24T22:13:20Z, 0 → +1h
 def zOld : Zone := { trs := [-1000000000], tys := [1], offs := [0, 3600] }
